@@ -145,22 +145,34 @@ theorem font_dependency_container_writes :
   · exact Or.inr (Or.inl h1)
   · exact Or.inr (Or.inr h1)
 
-/-- the complete list of places where canvas hands a loaded font to a dependency method that writes
-into its receiver: the PDF writer (`CFF.SetGlyphNames(nil)`, `Subset`) and the SVG writer (`Subset`
-when SubsetFonts is set); and `Subset` contains exactly three alias copies `&(*sfntOld.T)` through
-which it writes into the receiver's Maxp, Head and Hhea tables. Whether the receiver at these call
-sites is the SHARED font or a private copy is not decidable from the syntax: it is judged on the
-running code (SharedFontState observations, race detector; known findings
-C20-race-font-subset-mutates-shared-font / C20-pdf-render-changes-shared-font). A new call site or a
-new alias copy changes this fact. -/
-theorem font_mutator_call_sites :
-    fontMutatorCalls.map (fun c => (c.fn, c.kind)) =
+/-- **dependency mutators run on a private copy**: the complete list of places where canvas calls a
+tdewolff/font method that writes into its receiver — the PDF writer (`CFF.SetGlyphNames(nil)`,
+`Subset`) and the SVG writer (`Subset`) — and at every one of them the receiver variable was rebound
+before the call, in an enclosing block of the same function, by
+`if c, err := ….ParseSFNT(recv.Write(), …); err == nil { recv = c }`. A new call site, or one without
+that statement in front of it, falsifies this. (Trusted, not derivable from the syntax: re-parsing a
+font program that the library itself wrote succeeds — otherwise the call falls through to the shared
+font; and `Write` only reads its receiver. Both are exercised by the SharedFontState observations
+and the race-detector runs.) -/
+theorem font_mutators_on_private_copy :
+    (∀ c, c ∈ fontMutatorCalls → c.privateCopy = true) ∧
+    fontMutatorCalls.map (fun c => (c.fn, c.call)) =
       [("pdf.pdfWriter.writeFont", "sfnt.CFF.SetGlyphNames"), ("pdf.pdfWriter.writeFont", "sfnt.Subset"),
-       ("svg.SVG.writeFonts", "sfnt.Subset")] ∧
+       ("svg.SVG.writeFonts", "sfnt.Subset")] := by
+  exact ⟨by decide, by decide⟩
+
+/-- why the copy is needed (a fact about the dependency, not about canvas): `Subset` contains exactly
+three alias copies `&(*sfntOld.T)` through which it writes into its receiver's Maxp, Head and Hhea
+tables. If upstream repairs them this list becomes empty and the statement has to be updated. -/
+theorem font_dependency_alias_copies :
     aliasCopies.map (fun c => (c.fn, c.kind)) =
       [("font.SFNT.Subset", "&(*sfntOld.Maxp)"), ("font.SFNT.Subset", "&(*sfntOld.Head)"),
        ("font.SFNT.Subset", "&(*sfntOld.Hhea)")] := by
-  exact ⟨by decide, by decide⟩
+  decide
+
+/-- non-vacuity of the call-site discipline: a call without the rebinding statement is rejected -/
+example : ¬ (∀ c, c ∈ [MutatorCall.mk "pdf.pdfWriter.writeFont" "" "sfnt.Subset" "sfnt" false ""] → c.privateCopy = true) := by
+  decide
 
 /-! ## Pooled sweep-line objects -/
 
